@@ -299,6 +299,16 @@ Definition name_has_certificate (m : meaning) : bool :=
   match m_auth m with AuRSA | AuDSS | AuECDSA => true | _ => false end.
 Definition name_has_signed_ske (m : meaning) : bool :=
   name_has_certificate m && match m_kx m with KxDHE | KxECDHE | KxSRP => true | _ => false end.
+Definition name_cert_key_types (m : meaning) : list string :=
+  match m_kx m, m_auth m with
+  | _, AuECDSA => ["ecdsa"; "Ed25519"; "Ed448"]
+  | _, AuDSS => ["dsa"]
+  | KxRSA, AuRSA => ["rsa"]                       (* RSA key transport cannot use an RSA-PSS key *)
+  | _, AuRSA => ["rsa"; "rsa-pss"]
+  | _, _ => []
+  end.
+Definition same_strings (a b : list string) : bool :=
+  forallb (fun x => existsb (String.eqb x) b) a && forallb (fun x => existsb (String.eqb x) a) b.
 (* versions <= TLS 1.2 only: TLS 1.3 has one key exchange for all suites *)
 Definition chk_dispatch (s : Z) : bool :=
   match meaning_of s with
@@ -315,6 +325,9 @@ Definition chk_dispatch (s : Z) : bool :=
       && Bool.eqb (gen_cli_gets_certificate s) (name_has_certificate m)
       && Bool.eqb (gen_cli_gets_ske s) (negb (kx_is KxRSA m))
       && Bool.eqb (gen_cli_verifies_ske_signature s) (name_has_signed_ske m)
+      (* the client's certificate-key-type rule (from the ast): for a certificate-authenticated suite the key types
+         (X509.certAlg) it accepts are exactly those the name denotes *)
+      && (negb (name_has_certificate m) || same_strings (gen_cli_fitting_cert_types s) (name_cert_key_types m))
   | None => false
   end.
 
@@ -380,4 +393,7 @@ Definition chk_suite_sources : bool :=
      candidate pairs filter_for_certificate takes the loop's certificate *)
   && negb (Nat.eqb (List.length cert_filter_sites) 0)
   && forallb (fun e => let '(_, _, kind) := e in negb (String.eqb kind "not-loop-var")) cert_filter_sites
-  && existsb (fun e => let '(_, _, kind) := e in String.eqb kind "loop") cert_filter_sites.
+  && existsb (fun e => let '(_, _, kind) := e in String.eqb kind "loop") cert_filter_sites
+  (* ... and the client refuses a certificate of another key type: the `cert_alg not in fitting` branch really sends
+     illegal_parameter and aborts *)
+  && existsb (String.eqb "AlertDescription.illegal_parameter") cli_cert_type_alerts.
